@@ -28,6 +28,14 @@ from . import C10
 SS = C10.SS
 
 
+def _member_sinks(f, v):
+    """the holder of sink::sequence's member sinks - `static std::tuple<Sinks...>` inside sequence.hpp: program-wide by design like the
+    logger singleton (constructed on first use; before fix b1e0e8c it was a static data member), and no text of any statement lives in it"""
+    t = (v.get("type") or "").replace("class ", "")
+    return f.file.endswith("/sink/sequence.hpp") and not v.get("thread_local") and re.match(r"^std::tuple<\s*(Sinks\.\.\.|[\w:<>, ]+)\s*>$", t) is not None \
+        and not re.search(r"string|stream|char|vector|record", t, re.I)
+
+
 def run(ctx):
     prog = ctx.prog
     cg = callgraph(ctx)
@@ -465,7 +473,7 @@ def run(ctx):
                     ctx.bad("R05.8", f, "asynchronous:" + short(nm), "%s uses %s: delivery is no longer a synchronous call chain (per-thread program order not guaranteed)" % (short(f.qual), nm), (f, n.get("ln")))
                 if n.get("k") == "decl":
                     for v in n.get("vars", []):
-                        if v.get("static") and f.name != "instance":
+                        if v.get("static") and f.name != "instance" and not _member_sinks(f, v):
                             bad += 1
                             ctx.bad("R05.8", f, "shared-buffer:" + v["name"], "%s keeps a static/thread_local object `%s`: statements whose lifetimes overlap share it (one statement's text leaks into another)" % (short(f.qual), v["name"]), (f, e.get("ln")))
                 if n.get("k") == "ref" and n.get("thread_local"):
